@@ -171,29 +171,70 @@ def suite_ctx(ctx):
     from .. import clientlib as cl
     from udsoncan.client import Client
     s = Suite('ctxmgr')
-    for path in ('normal', 'exception', 'timeout', 'negative'):
+    class Odd(BaseException):
+        pass
+
+    def body(c, conn, path):
+        if path == 'exception':
+            raise KeyError('boom')
+        if path == 'timeout':
+            c.tester_present()
+        if path == 'negative':
+            conn.script = [(1, b'\x7f\x3e\x11')]
+            c.tester_present()
+        if path == 'keyboard-interrupt':
+            raise KeyboardInterrupt()
+        if path == 'system-exit':
+            raise SystemExit(3)
+        if path == 'base-exception':
+            raise Odd()
+        if path == 'interrupt-while-waiting':
+            def boom(*a, **k):
+                raise KeyboardInterrupt()
+            conn.specific_wait_frame = boom
+            c.tester_present()
+
+    for path in ('normal', 'exception', 'timeout', 'negative', 'keyboard-interrupt', 'system-exit', 'base-exception', 'interrupt-while-waiting',
+                 'generator-closed', 'return', 'break'):
         conn = cl.stub.StubConn(cl.CLOCK)
         conn.opened = False
         raised = None
+        entered = []
         try:
-            with Client(conn, request_timeout=1) as c:
-                if not conn.is_open():
-                    s.fail({'site': 'Client.__enter__', 'input': path, 'observed': 'connection not opened', 'required': 'opened'})
-                if path == 'exception':
-                    raise KeyError('boom')
-                if path == 'timeout':
-                    c.tester_present()
-                if path == 'negative':
-                    conn.script = [(1, b'\x7f\x3e\x11')]
-                    c.tester_present()
-        except Exception as e:  # noqa
+            if path == 'generator-closed':
+                def gen():
+                    with Client(conn, request_timeout=1) as c:
+                        entered.append(conn.is_open())
+                        yield c
+                        yield c
+                g = gen()
+                next(g)
+                g.close()                      # GeneratorExit inside the with block
+            elif path == 'return':
+                def fn():
+                    with Client(conn, request_timeout=1):
+                        entered.append(conn.is_open())
+                        return 1
+                fn()
+            elif path == 'break':
+                for _ in range(2):
+                    with Client(conn, request_timeout=1):
+                        entered.append(conn.is_open())
+                        break
+            else:
+                with Client(conn, request_timeout=1) as c:
+                    entered.append(conn.is_open())
+                    body(c, conn, path)
+        except BaseException as e:  # noqa
             raised = e
         s.evaluations += 1
         s.distinct.add(path)
+        if entered != [True]:
+            s.fail({'site': 'Client.__enter__', 'input': path, 'observed': 'connection not opened', 'required': 'opened'})
         if conn.is_open() or conn.close_calls != 1:
             s.fail({'site': 'Client.__exit__', 'input': path, 'observed': 'open=%s close_calls=%d' % (conn.is_open(), conn.close_calls),
                     'required': 'closed exactly once'})
-        if path != 'normal' and raised is None:
+        if path not in ('normal', 'generator-closed', 'return', 'break') and raised is None:
             s.fail({'site': 'Client.__exit__', 'input': path, 'observed': 'exception swallowed', 'required': 'exception propagates'})
     s.exhaustive = True
     return s
@@ -228,7 +269,26 @@ def suite_direct(ctx):
         sf = 1 if has_sf else None
         req = Request(svcs[svc], subfunction=sf, suppress_positive_response=rspr)
         tmo = -1 if percall is None else percall * cl.TICK
+        reuse = rng.random() < 0.3
+        before = dict(vars(req))
+        if reuse:
+            # the same Request object was already sent once on this client, inside a suppress-positive-response block
+            keep_script, keep_stale = conn.script, conn.stale
+            conn.script, conn.stale = [], []
+            with client.suppress_positive_response:
+                try:
+                    client.send_request(req)
+                except Exception:  # noqa
+                    pass
+            conn.script, conn.stale = keep_script, keep_stale
+            if dict(vars(req)) != before:
+                s.fail({'site': 'send_request', 'input': 'Request(%s, subfunction=%s, suppress_positive_response=%s) sent inside a suppress-positive-response block' % (svc, sf, rspr),
+                        'class': 'the call modified its argument', 'observed': str({k: v for k, v in vars(req).items() if before.get(k) != v}), 'required': 'Request object unchanged'})
+            s.count('request-object-reused')
         obs = cl.observe(conn, lambda: client.send_request(req, timeout=tmo))
+        if dict(vars(req)) != before and not reuse:
+            s.fail({'site': 'send_request', 'input': 'send', 'class': 'the call modified its argument',
+                    'observed': str({k: v for k, v in vars(req).items() if before.get(k) != v}), 'required': 'Request object unchanged'})
         line = 'send %s svc=%s sf=%s rspr=%s data=- timeout=%s arr=%s' % (cfg.line(), svc, onat(sf), b01(rspr), onat(percall), cl.arrivals_str(arr))
         lines.append(line)
         impl.append(obs)
